@@ -36,6 +36,11 @@ func (e *Engine) intrinsic2(st *State, fr *Frame, fn *ssa.Function, args []Value
 }
 
 func (e *Engine) schedSleep(st *State, fr *Frame, d *Term, pos token.Pos) []exit {
+	if e.timedSleeps && st.gdepth > 0 && d.IsConst() && d.SVal() > 0 {
+		// a goroutine that sleeps lets the others run: it is parked until the main thread has nothing else to
+		// do before that instant (virtual time, concrete durations only)
+		return []exit{{st: st, kind: exitPark, timer: st.vnow + d.SVal(), pmsg: "sleep"}}
+	}
 	if st.clock != nil {
 		// deterministic clock: sleeping is the only thing that takes time besides waiting on the network
 		pos := e.tc.Ite(e.tc.BVSlt(d, e.bv64(0)), e.bv64(0), d)
@@ -198,6 +203,18 @@ func init() {
 			}
 		}
 		return out
+	}
+	// errors.Is: identity of the error value itself (the modelled errors do not wrap anything)
+	stubs["errors.Is"] = func(e *Engine, st *State, fr *Frame, fn *ssa.Function, args []Value, pos token.Pos) []exit {
+		a, ok1 := args[0].(IfaceV)
+		b, ok2 := args[1].(IfaceV)
+		if !ok1 || !ok2 || a.T == nil || b.T == nil {
+			return retExit(st, e.tc.Bool(ok1 && ok2 && a.T == nil && b.T == nil))
+		}
+		if !types.Identical(a.T, b.T) {
+			return retExit(st, e.tc.False)
+		}
+		return retExit(st, e.eqVal(a.V, b.V))
 	}
 	// internal/bytealg: assembly routines, given their documented semantics on concrete or symbolic bytes
 	indexByte := func(e *Engine, b []*Term, c *Term) *Term {
